@@ -29,13 +29,13 @@ ROS_METHODS = {'ros3p': 2, 'ros3pw': 2, 'rowdaind2': 2, 'rodasp': 3, 'rosi2p1': 
 def cases(tier, seed):
     for name in list(DIRK_METHODS) + list(ROS_METHODS):
         yield {'kind': 'tableau', 'method': name}
-    n = {'quick': 420, 'thorough': 9000}[tier]
+    n = {'quick': 420, 'thorough': 50000}[tier]
     for i in range(n):
         yield {'kind': 'step', 'seed': seed, 'idx': i}
-    n = {'quick': 96, 'thorough': 2000}[tier]
+    n = {'quick': 96, 'thorough': 10000}[tier]
     for i in range(n):
         yield {'kind': 'driver', 'seed': seed, 'idx': i}
-    n = {'quick': 60, 'thorough': 1500}[tier]
+    n = {'quick': 60, 'thorough': 8000}[tier]
     for i in range(n):
         yield {'kind': 'newton', 'seed': seed, 'idx': i}
 
